@@ -1,6 +1,6 @@
 CONSTANTS
   Codec = "bytes"
-  Alpha = {1, 2, 3}
+  Alpha = {1, 2}
   MaxLen = 6
   LpBad = 9
   LpScale = 1
